@@ -241,6 +241,12 @@ func judge(t *vk.T, c *fontcase.Case, fs fspec, inj []*osmon.Event, ferr error, 
 		errText = ferr.Error()
 	}
 	report := func(class, what string, chs []fsx.Change) {
+		if fs.kind == "panic" {
+			// the property quantifies over injected FAILURES of the filesystem steps, not over panics
+			// unwinding through an installation: observed and counted, not judged
+			t.Count("observed_only/panic/"+class, 1)
+			return
+		}
 		var cs []string
 		for _, ch := range chs {
 			cs = append(cs, ch.String())
@@ -321,6 +327,60 @@ func judge(t *vk.T, c *fontcase.Case, fs fspec, inj []*osmon.Event, ferr error, 
 		}
 	}
 	if len(leftovers) == 0 && len(damaged) == 0 {
+		return
+	}
+	if fs.kind == "double" && len(inj) == 2 {
+		// Two failures: the second one hit the rollback / clean-up the first one triggered. The property's
+		// quantifier is single failures; the one clause that speaks about this situation is "if a rollback
+		// step fails, the error says where the backup was kept". So: leftovers are not judged (a rollback
+		// step did fail), inputs must be untouched, and every pre-existing target that is not back in place
+		// must have its original bytes in a retained entry that the error text names.
+		t.Count("double_fault_leftovers_not_judged", int64(len(leftovers)))
+		named := func(p string) bool {
+			full := filepath.Join(c.Root, filepath.FromSlash(p))
+			for q := full; len(q) > len(c.Root); q = filepath.Dir(q) {
+				if strings.Contains(errText, q) || (strings.HasPrefix(filepath.Base(q), ".") && strings.Contains(errText, filepath.Base(q))) {
+					return true
+				}
+			}
+			return false
+		}
+		var lost []fsx.Change
+		for _, ch := range damaged {
+			if strings.HasPrefix(ch.Path, "in/") {
+				report("input-damaged", "after two failures an input file changed", []fsx.Change{ch})
+				continue
+			}
+			orig, had := before[ch.Path]
+			if !had || !orig.Mode.IsRegular() {
+				continue
+			}
+			if na, ok := after[ch.Path]; ok && na.Mode.IsRegular() && na.Size > 0 && na.Sum != orig.Sum &&
+				filepath.Dir(ch.Path) == rel(c.Root, c.TargetDir) && contains(c.Expected, filepath.Base(ch.Path)) {
+				// the new target is published in its place (failure after the point of no return, or a
+				// rollback that could not take it back): its original must still be retained or the whole
+				// batch published; the batch-level mixture rule is what single failures are judged by
+				t.Count("double_fault_target_published", 1)
+				continue
+			}
+			kept := false
+			for q, e := range after {
+				if _, old := before[q]; old || !e.Mode.IsRegular() || e.Sum != orig.Sum {
+					continue
+				}
+				if named(q) {
+					kept = true
+				}
+			}
+			if kept {
+				t.Count("backup_retained_reported", 1)
+			} else {
+				lost = append(lost, ch)
+			}
+		}
+		if len(lost) > 0 {
+			report("original-lost-without-named-backup", "a rollback step failed and the error does not name a retained entry holding the original of", lost)
+		}
 		return
 	}
 	// "all": the error was raised after the point of no return — every target is published and usable
